@@ -213,10 +213,9 @@ var skTable = map[string]skAction{
 	"readCloser.Read":             {inline: "recvDataReader.Read", via: "newRecvDataReader", loop: true},
 	"readCloser.Close":            {none: true},
 	// helpers with channel operations, inlined
-	"sendDataWriter.deliver":               {inline: "sendDataWriter.deliver"},
-	"trzszTransfer.pipelineRecvFinalAck":   {inline: "trzszTransfer.pipelineRecvFinalAck"},
-	"trzszTransfer.pipelineRecvCurrentAck": {inline: "trzszTransfer.pipelineRecvCurrentAck"},
-	"trzszTransfer.bufInitDone":            {inline: "trzszTransfer.bufInitDone"}, // hooks/fix_bufinit.diff
+	"sendDataWriter.deliver":             {inline: "sendDataWriter.deliver"},
+	"trzszTransfer.pipelineRecvFinalAck": {inline: "trzszTransfer.pipelineRecvFinalAck"},
+	"trzszTransfer.bufInitDone":          {inline: "trzszTransfer.bufInitDone"}, // hooks/fix_bufinit.diff
 	// hashing: pure
 	"md5.New().Write": {none: true}, "md5.New().Sum": {none: true},
 	// progress callbacks write to the terminal
